@@ -1212,8 +1212,8 @@ func TestC14(t *testing.T) {
 	r.Assume("a dropped series is also tombstoned in the series file (single-shard behaviour of the engine) except in histories marked series_file=kept, which model a series that other shards still hold",
 		"crash rule: the recovered series set lies between the state before and after the op in flight and every other answer lies between the answers derived from those two states; compaction changes nothing")
 	rep := newGixReporter(r, 1)
-	n := gixN(r, 30, 300)
-	crashN := r.N(3, 30)
+	n := gixN(r, 30, 200)
+	crashN := r.N(3, 20)
 	every := n / crashN
 	if every < 1 {
 		every = 1
